@@ -69,9 +69,12 @@ def normalize_node(n):
     n.setdefault("fail_at", [])
     n.setdefault("fail_args", [])
     n.setdefault("dec_args", [])
+    n.setdefault("pure", False)
     n.setdefault("pause_at", [])
     n.setdefault("fn", "term")
     n.setdefault("cache", False)
+    n.setdefault("tname", n["name"])      # the name the wrapped function knows itself by (appears in returned values)
+    n.setdefault("fid", n["name"])        # identity of the wrapped function (nodes may share one function object)
     n.setdefault("is_async", False)
     n.setdefault("inmap", [])
     n.setdefault("outmap", [])
@@ -137,3 +140,14 @@ def canon(v):
     if isinstance(v, (list, tuple)):
         return "[" + ";".join(canon(x) for x in v) + "]"
     return repr(v)
+
+
+def assign_fids(p, prefix=""):
+    """Function identity of nodes that do not share a function = their path (in place)."""
+    for n in p["nodes"]:
+        path = f"{prefix}/{n['name']}" if prefix else n["name"]
+        if n["fid"] == n["name"]:
+            n["fid"] = "path:" + path
+        if n["kind"] == "graph":
+            assign_fids(n["sub"], path)
+    return p
